@@ -1,132 +1,273 @@
-From stdpp Require Import gmap list.
+(* ABS — executable abstraction function and well-formedness checker of a raw
+   logical disk image (home blocks overlaid with the journal).  These are the
+   definitions the C04/C05/C12 theorems speak about, and the same definitions
+   are extracted and run on the implementation's real disk.
+   The layout comes from the *generated* transcription of super/super.go. *)
+From stdpp Require Import gmap list mapset.
 From Coq Require Import NArith ZArith Lia.
+From V Require Import Model.Lib Gen.GenSuper.
 Open Scope N_scope.
 
-(* ---------- disk image ---------- *)
-Definition byte := N.
-Definition block := list byte.
-Definition disk := gmap N block.
-Definition BS : N := 4096.
-Definition zeros (n:N) : list byte := replicate (N.to_nat n) 0.
-Definition zero_block : block := zeros BS.
-Definition rd (d:disk) (a:N) : block := default zero_block (d !! a).
+(* only non-zero blocks are stored *)
+Definition disk := gmap N bytes.
+Definition rd (d : disk) (a : N) : bytes := default zero_block (d !! a).
+Definition disk_set (d : disk) (a : N) (b : bytes) : disk :=
+  if all_zero b then delete a d else <[a := b]> d.
 
-(* little-endian integers inside a block *)
-Fixpoint unle (l:list N) : N := match l with [] => 0 | b :: r => b + 256 * unle r end.
-Definition get (n:nat) (b:list byte) (off:N) : N := unle (take n (drop (N.to_nat off) b)).
-Definition get64 := get 8. Definition get32 := get 4.
+Record layout := { l_size : N; l_bbstart : N; l_nbb : N; l_ibstart : N; l_istart : N;
+                   l_dstart : N; l_ninode : N }.
+Definition mk_layout (sz : N) : layout :=
+  let fs := GenSuper.MkFsSuper sz in
+  {| l_size := sz; l_bbstart := GenSuper.BitmapBlockStart fs; l_nbb := GenSuper.NBlockBitmap fs;
+     l_ibstart := GenSuper.BitmapInodeStart fs; l_istart := GenSuper.InodeStart fs;
+     l_dstart := GenSuper.DataStart fs; l_ninode := GenSuper.NInode fs |}.
 
-(* ---------- layout (as super.go computes it) ---------- *)
-Record layout := { l_size : N; l_bbstart : N; l_nbb : N; l_ibstart : N; l_istart : N; l_dstart : N; l_ninode : N }.
-Definition mk_layout (sz:N) : layout :=
-  let nbb := sz / 32768 + 1 in
-  {| l_size := sz; l_bbstart := 513; l_nbb := nbb; l_ibstart := 513 + nbb; l_istart := 514 + nbb;
-     l_dstart := 514 + nbb + 1024; l_ninode := 32768 |}.
+Definition NDIRECT : N := 8.
+Definition NPTR : N := 512.
+Definition DIRENTSZ : N := 128.
 
 (* ---------- inodes ---------- *)
 Record dinode := { i_kind : N; i_nlink : N; i_gen : N; i_size : N; i_shrink : N;
                    i_atime : N * N; i_mtime : N * N; i_blks : list N }.
-Definition read_inode (l:layout) (d:disk) (inum:N) : dinode :=
-  let b := rd d (l_istart l + inum / 32) in
-  let o := (inum mod 32) * 128 in
-  {| i_kind := get32 b o; i_nlink := get32 b (o+4); i_gen := get64 b (o+8); i_size := get64 b (o+16);
-     i_shrink := get64 b (o+24); i_atime := (get32 b (o+32), get32 b (o+36)); i_mtime := (get32 b (o+40), get32 b (o+44));
-     i_blks := map (fun k => get64 b (o + 48 + 8 * N.of_nat k)) (seq 0 10) |}.
 
-Definition ptrs (d:disk) (a:N) : list N := map (fun k => get64 (rd d a) (8 * N.of_nat k)) (seq 0 512).
+(* n consecutive little-endian 64-bit words *)
+Fixpoint words (n : nat) (b : bytes) : list N :=
+  match n with O => [] | S n => unle (take 8 b) :: words n (drop 8 b) end.
 
-(* leaves of an index tree in logical order: (logical block number, physical block), holes skipped;
-   also collects the index blocks *)
-Fixpoint tree (d:disk) (lvl:nat) (root base span:N) : list (N*N) * list N :=
+Definition decode_inode (b : bytes) : dinode :=
+  {| i_kind := get32 b 0; i_nlink := get32 b 4; i_gen := get64 b 8; i_size := get64 b 16;
+     i_shrink := get64 b 24; i_atime := (get32 b 32, get32 b 36); i_mtime := (get32 b 40, get32 b 44);
+     i_blks := words 10 (drop 48 b) |}.
+
+Definition inode_bytes (l : layout) (d : disk) (i : N) : bytes :=
+  let a := GenSuper.Inum2Addr (GenSuper.MkFsSuper (l_size l)) i in
+  takeN 128 (dropN (snd a / 8) (rd d (fst a))).
+Definition read_inode (l : layout) (d : disk) (i : N) : dinode := decode_inode (inode_bytes l d i).
+
+Definition blk_count (size : N) : N := (size + BS - 1) / BS.
+
+(* leaves of an index tree in logical order: (logical block number, physical block);
+   also the index blocks themselves *)
+Fixpoint tree (d : disk) (lvl : nat) (root base span : N) : list (N * N) * list N :=
   if root =? 0 then ([], []) else
   match lvl with
   | O => ([(base, root)], [])
   | S l =>
-      let sub := span / 512 in
-      let rs := imap (fun k p => tree d l p (base + N.of_nat k * sub) sub) (ptrs d root) in
+      let sub := span / NPTR in
+      let rs := imap (fun k p => tree d l p (base + N.of_nat k * sub) sub) (words 512 (rd d root)) in
       (concat (map fst rs), root :: concat (map snd rs))
   end.
 
-Definition inode_blocks (d:disk) (ip:dinode) : list (N*N) * list N :=
+Definition inode_blocks (d : disk) (ip : dinode) : list (N * N) * list N :=
   let direct := omap (fun kp => if snd kp =? 0 then None else Some (N.of_nat (fst kp), snd kp))
                      (imap (fun k p => (k, p)) (take 8 (i_blks ip))) in
-  let '(l1, x1) := tree d 1 (nth 8 (i_blks ip) 0) 8 512 in
-  let '(l2, x2) := tree d 2 (nth 9 (i_blks ip) 0) (8 + 512) (512 * 512) in
+  let '(l1, x1) := tree d 1 (nth 8 (i_blks ip) 0) NDIRECT NPTR in
+  let '(l2, x2) := tree d 2 (nth 9 (i_blks ip) 0) (NDIRECT + NPTR) (NPTR * NPTR) in
   (direct ++ l1 ++ l2, x1 ++ x2).
 
 (* ---------- abstract objects ---------- *)
-Record aobj := { a_kind : N; a_gen : N; a_size : N; a_chunks : list (N * block);
-                 a_ents : list (list N * N); a_parent : N }.
+Record aobj := { ab_kind : N; ab_gen : N; ab_size : N; ab_chunks : list (N * bytes);
+                 ab_ents : list (name * N); ab_parent : N; ab_atime : N * N; ab_mtime : N * N;
+                 ab_nlink : N }.
 
-Definition file_block (d:disk) (leaves:list (N*N)) (bn:N) : block :=
-  match list_find (fun p => bool_decide (fst p = bn)) leaves with
-  | Some (_, (_, pb)) => rd d pb | None => zero_block end.
+Definition leaf_map (leaves : list (N * N)) : gmap N N := list_to_map leaves.
 
-(* directory slots *)
-Definition slot_of (b:block) (o:N) : option (list N * N) :=
-  let inum := get64 b o in let len := get64 b (o+8) in
-  if inum =? 0 then None else Some (take (N.to_nat len) (drop (N.to_nat (o+16)) b), inum).
-Definition dir_slots (d:disk) (leaves:list (N*N)) (size:N) : list (option (list N * N)) :=
-  map (fun k => let off := N.of_nat k * 128 in slot_of (file_block d leaves (off / BS)) (off mod BS))
-      (seq 0 (N.to_nat (size / 128))).
+Definition slot_of (b : bytes) (o : N) : option (name * N) :=
+  let i := get64 b o in let len := get64 b (o + 8) in
+  if i =? 0 then None else Some (takeN len (dropN (o + 16) b), i).
+Definition slot_len (b : bytes) (o : N) : N := get64 b (o + 8).
+
+Definition dir_slots (d : disk) (lm : gmap N N) (size : N) : list (option (name * N)) :=
+  map (fun k => let off := N.of_nat k * DIRENTSZ in
+                slot_of (match lm !! (off / BS) with Some pb => rd d pb | None => zero_block end) (off mod BS))
+      (seq 0 (N.to_nat (size / DIRENTSZ))).
 
 Inductive wf_error :=
-| EBadPtr (inum blk:N) | EDupBlock (blk:N) | EBitClear (blk:N) | EBitSetUnowned (blk:N)
-| EInodeBit (inum:N) | EDot (inum:N) | EDotDot (inum:N) | EDangling (dir inum:N) | EFuel | ENonZeroFree (blk:N).
+| EBadPtr (inum blk : N)            (* pointer outside the data region *)
+| EDupBlock (blk : N)               (* block with two owners *)
+| EBitClear (blk : N)               (* owned block not marked used *)
+| EBitSetUnowned (blk : N)          (* marked used, owned by nobody *)
+| ENonZeroFree (blk : N)            (* free block with non-zero contents *)
+| EBitmapFixed                      (* reserved part of the block bitmap wrong *)
+| EInodeBit (inum : N)              (* live inode not marked in the inode bitmap *)
+| EInodeLeak (inum : N)             (* marked / non-free inode not reachable from the root *)
+| EInodeBitFree (inum : N)          (* bit set but inode free (other than 0) *)
+| EDot (inum : N) | EDotDot (inum : N)
+| EDangling (dir inum : N)          (* entry pointing to a free inode *)
+| EDupName (dir : N) | EBadName (dir : N) | EDirSize (inum : N)
+| ETwoNames (inum : N)              (* object reachable through two entries *)
+| ETooBig (inum : N) | EBeyondSize (inum blk : N) | ETailNonZero (inum : N)
+| EKind (inum : N) | EGen (inum : N) | ENlink (inum : N)
+| EFreeOwns (inum : N)              (* free inode owning blocks although not shrinking *)
+| EFuel.
 
-Definition bit_of (d:disk) (start n:N) : bool :=
-  let b := rd d (start + n / 32768) in
-  N.testbit (nth (N.to_nat ((n mod 32768) / 8)) b 0) (n mod 8).
+Definition bad_name_b (name_max : N) (n : name) : bool :=
+  (lenN n =? 0) || (name_max <? lenN n) ||
+  negb (forallb (fun b => negb (bool_decide (b = b_slash)) && negb (bool_decide (b = x00))) n).
 
-(* walk the tree from the root; fuel bounds the number of objects visited *)
-Fixpoint walk (l:layout) (d:disk) (fuel:nat) (todo:list (N*N)) (acc:list (N*aobj)) (owned:list N) (errs:list wf_error)
-  : list (N*aobj) * list N * list wf_error :=
+(* insertion-based set construction (stdpp's union-based list_to_set is quadratic when run) *)
+Definition gs_add `{Countable K} (x : K) (s : gset K) : gset K := Mapset (<[x := ()]> (mapset_car s)).
+Definition gs_of_list `{Countable K} (l : list K) : gset K := fold_left (fun s x => gs_add x s) l ∅.
+
+Fixpoint has_dup (l : list name) (seen : gset name) : bool :=
+  match l with [] => false | x :: r => if bool_decide (x ∈ seen) then true else has_dup r (gs_add x seen) end.
+
+(* per-inode structural checks shared by reachable and unreachable inodes *)
+Definition check_blocks (l : layout) (inum : N) (ip : dinode) (leaves : list (N * N)) (idx : list N) : list wf_error :=
+  let lim := N.max (blk_count (i_size ip)) (i_shrink ip) in
+  omap (fun b => if (l_dstart l <=? b) && (b <? l_size l) then None else Some (EBadPtr inum b)) (map snd leaves ++ idx) ++
+  omap (fun p => if fst p <? lim then None else Some (EBeyondSize inum (snd p))) leaves.
+
+Record walk_st := { w_objs : list (N * aobj); w_owned : list N; w_errs : list wf_error; w_seen : gset N }.
+
+Section Walk.
+Variable name_max maxfilesize : N.
+Variable l : layout.
+Variable d : disk.
+
+Definition visit (inum parent : N) (st : walk_st) : walk_st * list (N * N) :=
+  let ip := read_inode l d inum in
+  let '(leaves, idx) := inode_blocks d ip in
+  let mine := map snd leaves ++ idx in
+  let lm := leaf_map leaves in
+  let e0 := check_blocks l inum ip leaves idx ++
+            (if i_gen ip =? 0 then [EGen inum] else []) ++
+            (if i_nlink ip =? 0 then [ENlink inum] else []) ++
+            (if maxfilesize <? i_size ip then [ETooBig inum] else []) in
+  if bool_decide (inum ∈ w_seen st) then
+    ({| w_objs := w_objs st; w_owned := w_owned st; w_errs := ETwoNames inum :: w_errs st; w_seen := w_seen st |}, [])
+  else if i_kind ip =? 2 then
+    let slots := dir_slots d lm (i_size ip) in
+    let ents := omap id slots in
+    let real := filter (fun e => negb (bool_decide (fst e = dot)) && negb (bool_decide (fst e = dotdot))) ents in
+    let e1 := (match slots with Some (n, i) :: _ => if bool_decide (n = dot) && (i =? inum) then [] else [EDot inum] | _ => [EDot inum] end) ++
+              (match slots with _ :: Some (n, p) :: _ => if bool_decide (n = dotdot) && (p =? parent) then [] else [EDotDot inum] | _ => [EDotDot inum] end) ++
+              (if i_size ip mod DIRENTSZ =? 0 then [] else [EDirSize inum]) ++
+              (if has_dup (map fst ents) ∅ then [EDupName inum] else []) ++
+              (if existsb (fun e => bad_name_b name_max (fst e)) real then [EBadName inum] else []) ++
+              (if (length ents =? length real + 2)%nat then [] else [EBadName inum]) in
+    let o := {| ab_kind := 2; ab_gen := i_gen ip; ab_size := i_size ip; ab_chunks := []; ab_ents := real;
+                ab_parent := parent; ab_atime := i_atime ip; ab_mtime := i_mtime ip; ab_nlink := i_nlink ip |} in
+    ({| w_objs := (inum, o) :: w_objs st; w_owned := mine ++ w_owned st;
+        w_errs := e1 ++ e0 ++ w_errs st; w_seen := gs_add inum (w_seen st) |},
+     map (fun e => (snd e, inum)) real)
+  else
+    let last := i_size ip / BS in
+    let e1 := (if (i_kind ip =? 1) || (i_kind ip =? 5) then [] else
+               if i_kind ip =? 0 then [EDangling parent inum] else [EKind inum]) ++
+              (if i_size ip mod BS =? 0 then [] else
+               match lm !! last with
+               | Some pb => if all_zero (dropN (i_size ip mod BS) (rd d pb)) then [] else [ETailNonZero inum]
+               | None => [] end) in
+    let o := {| ab_kind := i_kind ip; ab_gen := i_gen ip; ab_size := i_size ip;
+                ab_chunks := map (fun p => (fst p, rd d (snd p))) leaves; ab_ents := []; ab_parent := parent;
+                ab_atime := i_atime ip; ab_mtime := i_mtime ip; ab_nlink := i_nlink ip |} in
+    ({| w_objs := (inum, o) :: w_objs st; w_owned := mine ++ w_owned st;
+        w_errs := e1 ++ e0 ++ w_errs st; w_seen := gs_add inum (w_seen st) |}, []).
+
+Fixpoint walk (fuel : nat) (todo : list (N * N)) (st : walk_st) : walk_st :=
   match fuel with
-  | O => (acc, owned, match todo with [] => errs | _ => EFuel :: errs end)
+  | O => match todo with [] => st | _ =>
+           {| w_objs := w_objs st; w_owned := w_owned st; w_errs := EFuel :: w_errs st; w_seen := w_seen st |} end
   | S f =>
     match todo with
-    | [] => (acc, owned, errs)
+    | [] => st
     | (inum, parent) :: rest =>
-      let ip := read_inode l d inum in
-      let '(leaves, idx) := inode_blocks d ip in
-      let mine := map snd leaves ++ idx in
-      let errs1 := (if bit_of d (l_ibstart l) inum then [] else [EInodeBit inum]) ++
-                   omap (fun b => if (l_dstart l <=? b) && (b <? l_size l) then None else Some (EBadPtr inum b)) mine in
-      if i_kind ip =? 2 then
-        let slots := dir_slots d leaves (i_size ip) in
-        let ents := omap id slots in
-        let real := filter (fun e => negb (bool_decide (fst e = [46])) && negb (bool_decide (fst e = [46;46]))) ents in
-        let errs2 := (match slots with Some ([46], i) :: _ => if i =? inum then [] else [EDot inum] | _ => [EDot inum] end) ++
-                     (match slots with _ :: Some ([46;46], p) :: _ => if p =? parent then [] else [EDotDot inum] | _ => [EDotDot inum] end) in
-        let o := {| a_kind := 2; a_gen := i_gen ip; a_size := i_size ip; a_chunks := []; a_ents := real; a_parent := parent |} in
-        walk l d f (rest ++ map (fun e => (snd e, inum)) real) ((inum, o) :: acc) (mine ++ owned) (errs2 ++ errs1 ++ errs)
-      else
-        let o := {| a_kind := i_kind ip; a_gen := i_gen ip; a_size := i_size ip;
-                    a_chunks := map (fun p => (fst p, rd d (snd p))) leaves; a_ents := []; a_parent := parent |} in
-        walk l d f rest ((inum, o) :: acc) (mine ++ owned)
-             ((if i_kind ip =? 0 then [EDangling parent inum] else []) ++ errs1 ++ errs)
+      if (inum <? l_ninode l) then
+        let '(st', more) := visit inum parent st in walk f (rest ++ more) st'
+      else walk f rest {| w_objs := w_objs st; w_owned := w_owned st;
+                           w_errs := EDangling parent inum :: w_errs st; w_seen := w_seen st |}
     end
   end.
 
-Fixpoint dups (l:list N) (seen:gset N) : list N :=
-  match l with [] => [] | x :: r => if bool_decide (x ∈ seen) then x :: dups r seen else dups r ({[x]} ∪ seen) end.
+(* inodes not reached from the root: scan the inode blocks present in the image *)
+Definition scan_block (quiescent : bool) (seen : gset N) (blkno : N) (acc : list N * list wf_error) : list N * list wf_error :=
+  fold_left (fun acc k =>
+    let inum := (blkno - l_istart l) * 32 + N.of_nat k in
+    if bool_decide (inum ∈ seen) || (inum =? 0) then acc else
+    let ip := read_inode l d inum in
+    let '(leaves, idx) := inode_blocks d ip in
+    let mine := map snd leaves ++ idx in
+    let errs := (if i_kind ip =? 0 then [] else [EInodeLeak inum]) ++
+                check_blocks l inum ip leaves idx ++
+                (match mine with [] => [] | _ =>
+                   if (i_kind ip =? 0) && (quiescent || (i_shrink ip =? 0)) then [EFreeOwns inum] else [] end) in
+    (mine ++ fst acc, errs ++ snd acc)) (seq 0 32) acc.
 
-Definition all_zero (b:block) : bool := forallb (fun x => x =? 0) b.
+End Walk.
 
-(* abstraction + invariant check of a whole disk image *)
-Definition abs_disk (sz:N) (d:disk) : list (N*aobj) * list wf_error :=
+(* ---------- bitmaps ---------- *)
+Definition testbit_byte (b : byte) (k : N) : bool := N.testbit (Byte.to_N b) k.
+Definition bit_of (d : disk) (start n : N) : bool :=
+  let b := rd d (start + n / 32768) in
+  testbit_byte (nth (N.to_nat ((n mod 32768) / 8)) b x00) (n mod 8).
+
+Definition popcount (b : byte) : N :=
+  let x := Byte.to_N b in
+  (x mod 2) + (x / 2 mod 2) + (x / 4 mod 2) + (x / 8 mod 2) + (x / 16 mod 2) + (x / 32 mod 2) + (x / 64 mod 2) + (x / 128).
+
+(* set bits of a bitmap region: the numbers inside [lo, hi) as a list, and the total count
+   (only non-zero bytes are expanded) *)
+Fixpoint set_bits_bytes (lo hi : N) (bs : bytes) (base : N) (acc : list N * N) : list N * N :=
+  match bs with
+  | [] => acc
+  | b :: r =>
+    let acc' := if Byte.eqb b x00 then acc else
+      (if (base + 8 <=? lo) || (hi <=? base) then fst acc else
+       fold_left (fun a k => let n := base + N.of_nat k in
+                             if testbit_byte b (N.of_nat k) && (lo <=? n) && (n <? hi) then n :: a else a) (seq 0 8) (fst acc),
+       snd acc + popcount b) in
+    set_bits_bytes lo hi r (base + 8) acc'
+  end.
+Definition set_bits (d : disk) (start nblk lo hi : N) : list N * N :=
+  fold_left (fun acc k => match d !! (start + N.of_nat k) with
+                          | Some b => set_bits_bytes lo hi b (N.of_nat k * 32768) acc
+                          | None => acc end) (seq 0 (N.to_nat nblk)) ([], 0).
+
+Record abs_result := {
+  r_objs : list (N * aobj);
+  r_errs : list wf_error;
+  r_used_blocks : N;       (* set bits of the block bitmap inside the data region *)
+  r_used_inodes : N        (* set bits of the inode bitmap *)
+}.
+
+Definition in_data (l : layout) (b : N) : bool := (l_dstart l <=? b) && (b <? l_size l).
+
+(* abstraction + invariant of a whole image.  [quiescent]: no background freeing is in
+   progress, so a free inode owns nothing. *)
+Definition abs_disk (name_max maxfilesize sz : N) (quiescent : bool) (d : disk) : abs_result :=
   let l := mk_layout sz in
-  let '(objs, owned, errs) := walk l d (N.to_nat 40000) [(1, 1)] [] [] [] in
-  let ownedset : gset N := list_to_set owned in
-  let derr := map EDupBlock (dups owned ∅) in
-  let berr := omap (fun b => if bit_of d (l_bbstart l) b then None else Some (EBitClear b)) owned in
-  (* every data block marked used is owned; every unowned data block is zero *)
-  let scan := omap (fun k => let b := l_dstart l + N.of_nat k in
-                             if bool_decide (b ∈ ownedset) then None
-                             else if bit_of d (l_bbstart l) b then Some (EBitSetUnowned b)
-                             else if all_zero (rd d b) then None else Some (ENonZeroFree b))
-                   (seq 0 (N.to_nat (sz - l_dstart l))) in
-  (objs, errs ++ derr ++ berr ++ scan).
+  let st0 := {| w_objs := []; w_owned := []; w_errs := []; w_seen := ∅ |} in
+  let st := walk name_max maxfilesize l d (N.to_nat (l_ninode l)) [(1, 1)] st0 in
+  (* unreachable inodes *)
+  let '(owned2, errs2) :=
+    fold_left (fun acc k => let b := l_istart l + N.of_nat k in
+                 match d !! b with Some _ => scan_block l d quiescent (w_seen st) b acc | None => acc end)
+              (seq 0 (N.to_nat (l_dstart l - l_istart l))) ([], []) in
+  let owned := w_owned st ++ owned2 in
+  let ownedset : gset N := gs_of_list owned in
+  let derr := if (length owned =? size ownedset)%nat then [] else
+              (fix dups (xs : list N) (seen : gset N) : list wf_error :=
+                 match xs with [] => [] | x :: r => if bool_decide (x ∈ seen) then EDupBlock x :: dups r seen
+                                                    else dups r (gs_add x seen) end) owned ∅ in
+  let '(used, nset) := set_bits d (l_bbstart l) (l_nbb l) (l_dstart l) sz in
+  let usedset : gset N := gs_of_list used in
+  let berr := omap (fun b => if bool_decide (b ∈ usedset) || negb (in_data l b) then None else Some (EBitClear b)) owned in
+  let uerr := omap (fun b => if negb (bool_decide (b ∈ ownedset)) then Some (EBitSetUnowned b) else None) used in
+  let nused_data := N.of_nat (length used) in
+  let fixed_ok := (nset =? nused_data + l_dstart l + (l_nbb l * 32768 - sz)) in
+  let zerr := omap (fun p => let b := fst p in
+                      if in_data l b && negb (bool_decide (b ∈ ownedset)) && negb (bool_decide (b ∈ usedset))
+                      then Some (ENonZeroFree b) else None) (map_to_list d) in
+  let '(iused, _) := set_bits d (l_ibstart l) 1 0 (l_ninode l) in
+  let iusedset : gset N := gs_of_list iused in
+  let ierr := omap (fun i => if bool_decide (i ∈ w_seen st) || (i =? 0) then None else
+                             if i_kind (read_inode l d i) =? 0 then Some (EInodeBitFree i) else None) iused ++
+              omap (fun p => if bool_decide (fst p ∈ iusedset) then None else Some (EInodeBit (fst p)))
+                   (w_objs st) in
+  {| r_objs := w_objs st;
+     r_errs := w_errs st ++ errs2 ++ derr ++ berr ++ uerr ++ (if fixed_ok then [] else [EBitmapFixed]) ++ zerr ++ ierr;
+     r_used_blocks := nused_data;
+     r_used_inodes := N.of_nat (length iused) |}.
 
 Definition empty_disk : disk := ∅.
-Definition disk_insert (d:disk) (a:N) (b:block) : disk := <[a:=b]> d.
